@@ -27,7 +27,7 @@ RULE = ("(a) every label assignment over a 2-letter (quick) / 3-letter "
         "{1..5}^3, (9,5,3), (16,16,16) filled with i mod m. Input arrays are handed over in seven "
         "forms (C, Fortran, the moveaxis view volume conversion produces, "
         "strided, a narrower unsigned dtype, big-endian, a wider dtype - "
-        "which may be refused), cycling through the enumeration. One evaluation = "
+        "which may be refused -, uint64 labels >= 2^32 for a uint32 dataset - which must be refused), cycling through the enumeration. One evaluation = "
         "one encode + spec validation/decode + package decode; non-trivial "
         "= >= 2 blocks or >= 2 distinct labels.")
 ASSUMPTIONS = [
@@ -72,7 +72,7 @@ def _case(dtype, shape, block, chans, gen=None):
 
 
 LAYOUTS = ("C", "F", "xyzc-view", "strided", "narrow-dtype", "bigendian",
-           "wider-dtype")
+           "wider-dtype", "too-wide-values")
 _ENCODERS = {}
 
 
@@ -104,6 +104,11 @@ def _lay(arr, layout):
     if layout == "wider-dtype":
         # uint64 array for a uint32 dataset: refused, or encoded correctly
         return arr.astype("uint64")
+    if layout == "too-wide-values":
+        # uint64 labels that do not fit a uint32 dataset: must be refused
+        if arr.dtype.itemsize == 4:
+            return arr.astype("uint64") + np.uint64(2 ** 32)
+        return arr
     return arr
 
 
@@ -134,8 +139,15 @@ def _evaluate(col, dtype, shape, block, chans, gen=None, layout="C"):
             enc = _ENCODERS[key] = CompressedSegmentationEncoder(
                 dtype, nch, list(block))
         buf = enc.encode(arr)
+        if layout == "too-wide-values" and arr.dtype != ref.dtype:
+            col.ev(1, nontriv, "bad/accepted-too-wide-labels")
+            col.violation("C02/encode/accepted-labels-that-do-not-fit-the-"
+                          "data-type", case, "refusal (labels >= 2^32 for a "
+                          "uint32 dataset)", "encoded without complaint")
+            return
     except Exception as exc:
-        if layout == "wider-dtype" and arr.dtype != ref.dtype:
+        if layout in ("wider-dtype", "too-wide-values") \
+                and arr.dtype != ref.dtype:
             col.ev(1, nontriv, "refused-wider-input")
             return
         col.ev(1, nontriv, "encode-exception")
